@@ -245,10 +245,10 @@ Section GenTotal.
 
   Lemma field_ir_of_total params f :
     in_reg r (f_ty f) ->
-    exists fi, field_ir_of r s params f = Ok fi /\ no256 (fi_path fi) = true.
+    exists fi, field_ir_of r s params f = Ok fi /\ tokenizable (fi_path fi) = true.
   Proof.
     intros Hin. unfold field_ir_of, resolve_field_type_path.
-    destruct (resolve_rec_total r s rank Hres (fuel0 r) (f_ty f) true params (f_type_name f) Hin)
+    destruct (resolve_rec_tokenizable r s rank Hres (fuel0 r) (f_ty f) true params (f_type_name f) Hin)
       as (t & Ht & Hn).
     { pose proof Hres as (_ & (_ & Hb) & _). pose proof (Hb _ Hin). unfold fuel0. lia. }
     rewrite Ht. cbn [bind]. eexists; split; [reflexivity|exact Hn].
@@ -257,7 +257,7 @@ Section GenTotal.
   Lemma cck_total fs params unused :
     fields_okb fs = true -> (forall f, In f fs -> in_reg r (f_ty f)) ->
     exists k u, create_composite_ir_kind r s fs params unused = Ok (k, u) /\
-                forall f, In f (ckind_fields k) -> no256 (fi_path f) = true.
+                forall f, In f (ckind_fields k) -> tokenizable (fi_path f) = true.
   Proof.
     intros Hok Hin. destruct fs as [|f0 fs0].
     { exists CNoFields, unused. split; [reflexivity|intros f []]. }
@@ -268,7 +268,7 @@ Section GenTotal.
     - unfold all_named in En. rewrite forallb_forall in En.
       destruct (mapM_total (fun f => let* id := parse_ident (match f_name f with Some n => n | None => "" end) in
                                      let* fi := field_ir_of r s params f in Ok (id, fi))
-                           (fun x => no256 (fi_path (snd x)) = true) fs) as (l & Hl & Pl).
+                           (fun x => tokenizable (fi_path (snd x)) = true) fs) as (l & Hl & Pl).
       { intros f Hf. specialize (En _ Hf). specialize (Hnm _ Hf).
         destruct (f_name f) as [n|]; [|discriminate]. unfold parse_ident. rewrite Hnm. cbn [bind].
         destruct (field_ir_of_total params f (Hin _ Hf)) as (fi & Hfi & Pfi). rewrite Hfi. cbn [bind].
@@ -276,7 +276,7 @@ Section GenTotal.
       rewrite Hl. cbn [bind]. eexists; eexists; split; [reflexivity|].
       intros f Hf. cbn [ckind_fields] in Hf. apply in_map_iff in Hf as (x & <- & Hx).
       rewrite Forall_forall in Pl. auto.
-    - destruct (mapM_total (field_ir_of r s params) (fun x => no256 (fi_path x) = true) fs) as (l & Hl & Pl).
+    - destruct (mapM_total (field_ir_of r s params) (fun x => tokenizable (fi_path x) = true) fs) as (l & Hl & Pl).
       { intros f Hf. apply field_ir_of_total. auto. }
       rewrite Hl. cbn [bind]. eexists; eexists; split; [reflexivity|].
       intros f Hf. cbn [ckind_fields] in Hf. rewrite Forall_forall in Pl. auto.
@@ -287,7 +287,7 @@ Section GenTotal.
                           forall f, In f (v_fields v) -> in_reg r (f_ty f)) ->
     exists l u, variants_ir r s params vs unused = Ok (l, u) /\
                 forall f, In f (flat_map (fun v => ckind_fields (ci_kind (snd v))) l) ->
-                          no256 (fi_path f) = true.
+                          tokenizable (fi_path f) = true.
   Proof.
     induction vs as [|v vs IH]; intros unused Hvs.
     - exists [], unused. split; [reflexivity|intros f []].
@@ -302,7 +302,7 @@ Section GenTotal.
 
   Lemma create_type_ir_total id t flat :
     resolve r id = Some t ->
-    exists o, create_type_ir r s t flat = Ok o /\ forall ir, o = Some ir -> ir_no256 ir.
+    exists o, create_type_ir r s t flat = Ok o /\ forall ir, o = Some ir -> ir_tokenizable ir.
   Proof.
     intros Hr. pose proof Hgen as (_ & _ & Hitem & _). pose proof Hres as (Hcl & _).
     pose proof (Hitem _ _ Hr) as Hi. unfold item_entryb in Hi.
@@ -331,7 +331,7 @@ Section GenTotal.
       { intros f Hf. apply Hids. cbn [def_ids]. apply in_map. exact Hf. }
       rewrite Hk. cbn [bind fst snd]. rewrite Hd. cbn [bind].
       eexists; split; [reflexivity|]. intros ir Hir. inversion Hir; subst.
-      unfold ir_no256. cbn [ti_kind kind_fields ci_kind]. exact Pk.
+      unfold ir_tokenizable. cbn [ti_kind kind_fields ci_kind]. exact Pk.
     - cbn [def_fields_okb] in Hdf. rewrite forallb_forall in Hdf.
       destruct (variants_ir_total (params_from_scale_info (t_params t)) vs (params_from_scale_info (t_params t)))
         as (l & u & Hl' & Pl).
@@ -341,7 +341,7 @@ Section GenTotal.
         apply in_map. exact Hf. }
       rewrite Hl'. cbn [bind fst snd]. rewrite Hd. cbn [bind].
       eexists; split; [reflexivity|]. intros ir Hir. inversion Hir; subst.
-      unfold ir_no256. cbn [ti_kind kind_fields]. exact Pl.
+      unfold ir_tokenizable. cbn [ti_kind kind_fields]. exact Pl.
   Qed.
 
   (** ** the generation loop *)
@@ -349,7 +349,7 @@ Section GenTotal.
   Hypothesis Hteq : forall a b, in_reg r a -> in_reg r b -> exists x, teq a b = Ok x.
 
   Definition items_good (m : items) : Prop :=
-    forall p id ir, In (p, (id, ir)) m -> in_reg r id /\ ir_no256 ir.
+    forall p id ir, In (p, (id, ir)) m -> in_reg r id /\ ir_tokenizable ir.
 
   Lemma items_get_In : forall (m : items) p v, items_get m p = Some v -> exists k, In (k, v) m.
   Proof.
@@ -424,7 +424,7 @@ End GenTotal.
 Section EmitTotal.
   Variable s : settings.
 
-  Lemma field_tokens_total f : no256 (fi_path f) = true -> exists t, field_tokens s f = Ok t.
+  Lemma field_tokens_total f : tokenizable (fi_path f) = true -> exists t, field_tokens s f = Ok t.
   Proof.
     intros H. unfold field_tokens. cbv zeta.
     destruct (tp_tokens_ok (alloc_tokens (s_alloc s)) _ H) as (t & Ht). rewrite Ht. cbn [bind].
@@ -432,7 +432,7 @@ Section EmitTotal.
   Qed.
 
   Lemma struct_field_tokens_total k ph codec :
-    (forall f, In f (ckind_fields k) -> no256 (fi_path f) = true) ->
+    (forall f, In f (ckind_fields k) -> tokenizable (fi_path f) = true) ->
     exists t, struct_field_tokens s k ph codec = Ok t.
   Proof.
     intros H. destruct k as [|fs|fs]; cbn [struct_field_tokens].
@@ -455,7 +455,7 @@ Section EmitTotal.
   Qed.
 
   Lemma enum_field_tokens_total k codec :
-    (forall f, In f (ckind_fields k) -> no256 (fi_path f) = true) ->
+    (forall f, In f (ckind_fields k) -> tokenizable (fi_path f) = true) ->
     exists t, enum_field_tokens s k codec = Ok t.
   Proof.
     intros H. destruct k as [|fs|fs]; cbn [enum_field_tokens].
@@ -477,9 +477,9 @@ Section EmitTotal.
       rewrite Hl. cbn [bind]. eauto.
   Qed.
 
-  Lemma type_ir_tokens_total ir : ir_no256 ir -> exists t, type_ir_tokens s ir = Ok t.
+  Lemma type_ir_tokens_total ir : ir_tokenizable ir -> exists t, type_ir_tokens s ir = Ok t.
   Proof.
-    unfold ir_no256, type_ir_tokens. intros H. destruct (ti_kind ir) as [c|name docs vs].
+    unfold ir_tokenizable, type_ir_tokens. intros H. destruct (ti_kind ir) as [c|name docs vs].
     - cbn [kind_fields] in H.
       destruct (struct_field_tokens_total (ci_kind c) (phantom_tokens (ti_unused ir)) (ti_codec ir) H)
         as (t & Ht).
@@ -538,7 +538,7 @@ Section EmitTotal.
 
   Lemma module_tokens_total : forall fuel name (es : list entry),
     0 < fuel -> (forall e, In e es -> List.length (fst e) < fuel) ->
-    (forall e, In e es -> ir_no256 (snd (snd e))) ->
+    (forall e, In e es -> ir_tokenizable (snd (snd e))) ->
     exists toks, module_tokens s fuel name es = Ok toks.
   Proof.
     induction fuel as [|fuel IH]; intros name es Hpos Hlen Hir; [lia|].
@@ -571,7 +571,7 @@ Section EmitTotal.
   Qed.
 
   Lemma emit_module_total (m : items) :
-    (forall p id ir, In (p, (id, ir)) m -> ir_no256 ir) -> exists toks, emit_module s m = Ok toks.
+    (forall p id ir, In (p, (id, ir)) m -> ir_tokenizable ir) -> exists toks, emit_module s m = Ok toks.
   Proof.
     intros H. unfold emit_module. apply module_tokens_total.
     - lia.
@@ -825,10 +825,22 @@ Proof.
   exact (resolve_total r s rank (proj1 (proj2 Hgen))).
 Qed.
 
+Theorem create_type_ir_total_tokenizable r s rank :
+  generable r s rank -> forall id t flat, resolve r id = Some t ->
+  exists o, create_type_ir r s t flat = Ok o /\ forall ir, o = Some ir -> ir_tokenizable ir.
+Proof. intros Hgen id t flat. apply (create_type_ir_total r s rank Hgen). Qed.
+
+Lemma ir_tokenizable_no256 ir : ir_tokenizable ir -> ir_no256 ir.
+Proof. intros H f Hf. apply tokenizable_no256. exact (H f Hf). Qed.
+
 Theorem create_type_ir_total_pinned r s rank :
   generable r s rank -> forall id t flat, resolve r id = Some t ->
   exists o, create_type_ir r s t flat = Ok o /\ forall ir, o = Some ir -> ir_no256 ir.
-Proof. intros Hgen id t flat. apply (create_type_ir_total r s rank Hgen). Qed.
+Proof.
+  intros Hgen id t flat Hr.
+  destruct (create_type_ir_total r s rank Hgen id t flat Hr) as (o & Ho & Hk).
+  exists o. split; [exact Ho|]. intros ir Hir. apply ir_tokenizable_no256. exact (Hk ir Hir).
+Qed.
 
 (** ** single fault: mixed named / unnamed fields *)
 Lemma fault_mixed_struct r s t flat fs nm :
